@@ -55,6 +55,7 @@ type Sim struct {
 	wake       chan struct{}
 	arrivalSeq int
 	pass       atomic.Bool
+	faultsOff  atomic.Bool
 	deadLabels map[string]bool
 	expectLeak bool
 
@@ -68,19 +69,19 @@ type Sim struct {
 	schedPos int
 	schedRng *Rand
 
-	jhash    [32]byte
-	jcount   int
-	journal  []string
-	jcap     int
-	stepLog  []string
+	jhash        [32]byte
+	jcount       int
+	journal      []string
+	jcap         int
+	stepLog      []string
 	schedPending []string
-	counters map[string]int64
-	occur    map[string]int
-	viol     []Violation
-	gids     sync.Map
-	actors   atomic.Int64
+	counters     map[string]int64
+	occur        map[string]int
+	viol         []Violation
+	gids         sync.Map
+	actors       atomic.Int64
 
-	plain bool
+	plain      bool
 	simElapsed time.Duration
 
 	// Invariant, if set, is evaluated at every quiescent point.
@@ -120,6 +121,9 @@ func (s *Sim) Occur(key string) int {
 // MatchFault reports the fault rule of the given kind whose key matches and
 // whose Nth equals the occurrence number n, if any, and counts it as fired.
 func (s *Sim) MatchFault(kind, key string, n int) *Fault {
+	if s.faultsOff.Load() {
+		return nil
+	}
 	for i := range s.Plan.Faults {
 		f := &s.Plan.Faults[i]
 		if f.Kind == kind && f.Key == key && f.Nth == n {
@@ -130,6 +134,10 @@ func (s *Sim) MatchFault(kind, key string, n int) *Fault {
 	}
 	return nil
 }
+
+// StopFaults ends fault injection for the rest of the run (the "once faults
+// stop" part of a liveness or convergence oracle): MatchFault no longer fires.
+func (s *Sim) StopFaults() { s.faultsOff.Store(true) }
 
 // FaultsOfKind lists the plan's fault rules of one kind.
 func (s *Sim) FaultsOfKind(kind string) []Fault {
